@@ -55,7 +55,7 @@ def flatten(tree):
 
 def tla_bytes(b):
     if isinstance(b, str):
-        b = b.encode()
+        b = b.encode("latin1")
     return "<<" + ", ".join(str(x) for x in b) + ">>"
 
 
@@ -344,9 +344,12 @@ def fault_units():
     for raw in ["A::X", "A,", ":;", "GRP:X:", "*OPC:A", "A\xff", "ABCDEFGHIJKLM", ":1", "GRP:,X"]:
         faults.append(U(["A"], lex="hdr", raw=raw))
     # lexical fault in data the handler pulls / does not pull
-    for raw in ["A 1$", "A 'abc", "A #", "A 1,,2", "A #3999ab", "A #H", "A 1 2", "A ABCDEFGHIJKLM", "A \"x\"y", "A 1,", "A 1:2"]:
+    for raw in ["A 1$", "A 'abc", "A #", "A 1,,2", "A #3999ab", "A #H", "A 1 2", "A ABCDEFGHIJKLM", "A \"x\"y", "A 1,", "A 1:2", "A ,1", "A , 1,2"]:
         faults.append(U(["A"], lex="data", raw=raw, h=H(pulls=["req"])))
         faults.append(U(["A"], lex="data", raw=raw, h=H()))
+    # a query whose first / middle datum cannot be formatted although later ones can
+    faults.append(U(["Bq"], query=True, h=H(items=("\x80", "1"))))
+    faults.append(U(["GRP"], query=True, h=H(items=("1", "\x80", "2"))))
     faults.append(U(["ZZ"]))                       # undefined header
     faults.append(U(["GRP", "ZZ"], query=True))
     faults.append(U(["A", "X"]))                   # past a leaf
@@ -399,7 +402,7 @@ def run_c06(chk, tier, seed):
     okq = [U(["Bq"], query=True, h=H(items=("7",))), U(["GRP", "X"], data=[DATA["chr"]], h=H(pulls=["req"]))]
     defs = [f"Var == {set_of(units)}", f"Okq == {set_of(okq)}", f"VarSmall == {set_of(small)}"]
     # first / last position with every ending; middle position between two fixed units
-    s1 = run_projection(chk, "C06", "first", ft, cands, defs, "Var", "Okq", 2, ["", "\n", " ", " \n", ";"], [-1])
+    s1 = run_projection(chk, "C06", "first", ft, cands, defs, "Var", "Okq", 2, ["", "\n", " ", " \n", ";", "\r\n", " \r\n"], [-1])
     s2 = run_projection(chk, "C06", "middle", ft, cands, defs, "Okq", "VarSmall \\cup Okq", 3, [""], [-1])
     chk.cov["exhaustive"] = True
     chk.cov["rule"] = (f"units carrying {len(dl)} data lists (0..3 elements over all seven data types incl. separators inside strings/blocks) x {len(pulls)} pull sequences over required/optional, "
@@ -414,7 +417,8 @@ def c10_units(th):
          U(["GRP", "X"], query=True, h=H(hdr="X", items=("ON", "OFF"))),
          U(["Bq"], query=True, h=H(items=("#12x;",))),          # payload ending in the unit separator byte
          U(["GRP"], query=True, h=H(items=("#11,", "#11\n"))),   # ... in the data separator / terminator byte
-         U(["SENS"], query=True, h=H(items=('-171,"Invalid expression;ext one"', '0,"No error"')))]   # error/event queue items
+         U(["SENS"], query=True, h=H(items=('-171,"Invalid expression;ext one"', '0,"No error"'))),   # error/event queue items
+         U(["SENS", "AC"], query=True, h=H(items=("\x80", "5")))]   # an unformattable datum: the message must fail, not emit ',5' 
     e = [U(["A"]), U(["GRP", "X"], data=[DATA["str"]], h=H(pulls=["req"])), U(["*OPC"])]
     return q, e
 
